@@ -1,5 +1,5 @@
 from typing import Any
-from deepdiff.helper import strings, numbers, SetOrdered
+from deepdiff.helper import strings, numbers, only_numbers, SetOrdered
 
 
 DEFAULT_SIGNIFICANT_DIGITS_WHEN_IGNORE_NUMERIC_TYPES = 12
@@ -42,7 +42,8 @@ class Base:
             ignore_type_in_groups.append(SetOrdered(self.strings))
 
         if ignore_numeric_type_changes and self.numbers not in ignore_type_in_groups:
-            ignore_type_in_groups.append(SetOrdered(self.numbers))
+            # dates and times are numbers for dispatching, but a number is never "the same value of another numeric type" as a date
+            ignore_type_in_groups.append(SetOrdered(only_numbers))
 
         if not ignore_type_subclasses:
             # is_instance method needs tuples. When we look for subclasses, we need them to be tuples
